@@ -9,6 +9,7 @@ CONSTANTS
   Kinds = {"guillot"}
   Rule = "guillot_asbuilt"
   RodVariant = "spec"
+  SignedNodes = "no"
   Export = FALSE
 INVARIANT InvalidNeverNaN
 INVARIANT OnePerLayer
